@@ -1,7 +1,7 @@
 (* C19: which round states can be restored, and that restoring does not change behaviour. *)
 From Coq Require Import String List NArith ZArith Bool Lia.
 Require Import Fsm.EngineDefs Fsm.Types Fsm.Engine Fsm.EngineFacts Fsm.Actions Fsm.Provider
-               Fsm.TableFacts Fsm.CancelFinal.
+               Fsm.TableFacts Fsm.CancelFinal Fsm.Handover.
 Require Gen.Tables.
 Import ListNotations.
 Local Open Scope string_scope.
@@ -42,7 +42,10 @@ Proof.
   intros Hin H. unfold do_on_dump, from_dump in H.
   destruct (machine_by_state (d_state d)) as [t|] eqn:Em; [|discriminate].
   destruct (copy_with_state_ok t (d_state d)); [|discriminate].
-  unfold inst_do in H. cbn [i_mach i_cur i_payload] in H.
+  destruct (String.eqb (d_state d) "") eqn:Ee0.
+  { apply String.eqb_eq in Ee0. exfalso. rewrite Ee0 in Hin. revert Hin. vm_compute. intuition discriminate. }
+  rewrite (inst_do_owner _ t) in H by (cbn [i_cur i_mach]; first [exact Em|reflexivity]).
+  unfold inst_do_core in H. cbn [i_mach i_cur i_payload] in H.
   destruct (table_by_name (ft_name t)) as [t'|] eqn:Et; [|discriminate].
   destruct (String.eqb (d_state d) "") eqn:Ee.
   { apply String.eqb_eq in Ee.
@@ -147,4 +150,54 @@ Proof.
   destruct (copy_with_state_ok t (d_state d)) eqn:Ec; [|discriminate].
   intros H Hne. apply String.eqb_neq in Hne. rewrite Hne in H. inversion H; subst.
   unfold owned. cbn. apply String.eqb_neq in Hne. repeat split; auto. exists t. auto.
+Qed.
+
+(* ---- every live instance (since the hand-over repair): no ownership hypothesis ---- *)
+Definition live (i : instance) : Prop :=
+  i_dstate i = i_cur i /\ i_cur i <> "" /\
+  exists t, table_by_name (i_mach i) = Some t /\
+            (mem_str (i_cur i) (states_list t) || mem_str (i_cur i) (ft_fin t)) = true.
+
+Lemma table_by_name_name n t : table_by_name n = Some t -> ft_name t = n.
+Proof. unfold table_by_name. intros H. apply find_some in H as [_ H]. apply String.eqb_eq in H. exact H. Qed.
+
+(* every state of every table is owned by a machine that accepts it: by the table itself, or - when
+   it is a final state of the table - possibly by the next machine *)
+Lemma live_states_owned :
+  forallb (fun t => forallb (fun s => match machine_by_state s with
+                                      | Some t' => copy_with_state_ok t' s &&
+                                                   (String.eqb (ft_name t') (ft_name t) || mem_str s (ft_fin t))
+                                      | None => false
+                                      end) (states_list t ++ ft_fin t)) machines = true.
+Proof. vm_compute. reflexivity. Qed.
+
+Lemma handover_owned i : live i -> owned (handover i).
+Proof.
+  intros (Hd & Hne & t & Ht & Hs).
+  pose proof live_states_owned as Hl. rewrite forallb_forall in Hl.
+  specialize (Hl t (table_by_name_In _ _ Ht)). rewrite forallb_forall in Hl.
+  assert (Hin : In (i_cur i) (states_list t ++ ft_fin t)).
+  { apply in_or_app. apply orb_true_iff in Hs as [H|H]; [left|right]; apply mem_str_In; exact H. }
+  specialize (Hl _ Hin).
+  destruct (machine_by_state (i_cur i)) as [t'|] eqn:Em; [|discriminate].
+  apply andb_prop in Hl as [Hc Hor].
+  pose proof (table_by_name_name _ _ Ht) as Hn.
+  unfold handover. rewrite Ht.
+  destruct (mem_str (i_cur i) (ft_fin t)) eqn:Ef.
+  - rewrite Em. destruct (String.eqb (ft_name t') (i_mach i)) eqn:En.
+    + apply String.eqb_eq in En. unfold owned. repeat split; auto. exists t'. auto.
+    + unfold owned. cbn [i_dstate i_cur i_mach]. repeat split; auto. exists t'. auto.
+  - rewrite orb_false_r in Hor. apply String.eqb_eq in Hor.
+    unfold owned. repeat split; auto. exists t'. repeat split; auto. congruence.
+Qed.
+
+Lemma handover_idem i : owned i -> handover i = i.
+Proof. intros (_ & _ & t & Hm & Hn & _). apply (handover_id i t Hm Hn). Qed.
+
+Theorem restore_step_live i ev req :
+  live i -> fsm_case (dump_of i) ev req = obs_of_do (inst_do i ev req).
+Proof.
+  intros Hl. pose proof (handover_owned i Hl) as Ho.
+  rewrite <- (dump_of_handover i). rewrite (restore_step (handover i) ev req Ho).
+  unfold inst_do. rewrite (handover_idem _ Ho). reflexivity.
 Qed.
